@@ -1,6 +1,6 @@
 //! C05 — requests on a keep-alive connection are handled independently and in order (DESIGN §5 C05).
 //!
-//! History space: all sequences (length ≤ 4 quick / ≤ 5 thorough) over a request alphabet chosen so that
+//! History space: all sequences (length ≤ 4 quick / ≤ 6 thorough) over a request alphabet chosen so that
 //! anything surviving from an earlier request becomes visible in a later echo; one segment per request.
 //! Oracle (differential, no expected values written by hand): response k must be byte-identical to the response
 //! the same request gets as the only request on a fresh connection.  The loop model is bound to the real
@@ -147,7 +147,7 @@ pub fn run(ctx: &mut Ctx) {
     let alpha = alphabet();
     let fresh = fresh_responses(&router, &alpha);
     let quick = ctx.quick();
-    let max_len = if quick { 4 } else { 5 };
+    let max_len = if quick { 4 } else { 6 };
     let conform_len = if quick { 2 } else { 3 };
     // sanity of the differential baseline: a fresh response must be one well-formed message
     for (i, r) in alpha.iter().enumerate() {
